@@ -11,7 +11,7 @@ import ast
 from typing import Callable, Dict, List, Tuple
 
 from .loader import Program
-from .rules import generic, valueobj
+from .rules import generic, generic2, valueobj
 
 # (rule, module, class-or-None, source to inject, rule runner, substring expected in a BAD construct id)
 CONTROLS: List[Tuple[str, str, str, str, Callable[[Program], list], str]] = [
@@ -45,6 +45,15 @@ CONTROLS: List[Tuple[str, str, str, str, Callable[[Program], list], str]] = [
     ("R-EPSGPROXY", "overlap", "",
      "def _vp_ctl_epsg(a, b):\n    return a.crs.epsg == b.crs.epsg\n",
      lambda p: generic.rule_epsg_proxy(p, {"overlap"}), "_vp_ctl_epsg#epsg-compare"),
+    ("R-NUMNORM", "geobox", "GeoBox",
+     "def vp_ctl_numnorm(self, padx: int):\n    return self._affine * Affine.translation(-padx, 0)\n",
+     lambda p: generic2.rule_numnorm(p, {"geobox"}), "vp_ctl_numnorm#numnorm"),
+    ("R-NUMNORM", "geom", "",
+     "def vp_ctl_alias(segment_length, resolution: float):\n    d = resolution\n    out = []\n    while d < segment_length:\n        out.append(d)\n        d += resolution\n    return out\n",
+     lambda p: generic2.rule_numnorm(p, {"geom"}), "vp_ctl_alias#numnorm:alias:d"),
+    ("R-ISNUM", "types", "",
+     "def vp_ctl_isnum(x):\n    if isinstance(x, (int, float)):\n        return float(x)\n    return tuple(x)\n",
+     lambda p: generic2.rule_isnum(p, {"types"}), "vp_ctl_isnum#isnum:x"),
     ("R-ABSEPS", "geobox", "GeoBox",
      "def _vp_ctl_abseps(self):\n    return self._affine.is_rectilinear\n",
      lambda p: generic.rule_abseps(p, {"geobox"}), "_vp_ctl_abseps#abs-eps"),
